@@ -42,8 +42,12 @@ pub const PAUSE_SITES: &[u32] = &[
     rv::AM_CONSUME_AFTER_RESERVE, rv::AM_CONSUME_AFTER_READ, rv::AM_PUBLISH_INDEX_BEFORE,
 ];
 
-pub fn draw_cfg(rng: &mut Rng, only: Option<&str>) -> Cfg {
-    let kinds: Vec<Kind> = chan::ALL_KINDS.iter().copied().filter(|k| only.map(|o| k.name() == o).unwrap_or(true)).filter(|k| !(cfg!(miri) && *k == Kind::MultiMmap)).collect();   // (Miri cannot interpret file-backed mmap)
+pub fn draw_cfg(rng: &mut Rng, only: Option<&str>, gated_only: bool) -> Cfg {
+    let mut kinds: Vec<Kind> = chan::ALL_KINDS.iter().copied().filter(|k| only.map(|o| k.name() == o).unwrap_or(true)).filter(|k| !(cfg!(miri) && *k == Kind::MultiMmap)).collect();   // (Miri cannot interpret file-backed mmap)
+    // C20 lane (`--set entry=async_gated`): "when the suspended send finally completes, its event is delivered as well" -- to a stream that is DRIVEN (parked when
+    // Pending), so the completed send itself has to wake it. Kinds that implement send_with_async, minus the two whose suspended send blocks everybody (C20-D9a/b)
+    // and minus the four atomic-ring kinds whose wake decision is a listed finding of its own (C04-D3 / C04-D10): what is left must simply deliver
+    if gated_only { kinds.retain(|k| k.has_async_send() && !matches!(k, Kind::UniMoveAtomic | Kind::UniMoveFullSync | Kind::UniZcAtomic | Kind::MultiArcAtomic | Kind::MultiOgreAtomic)) }
     let kind = *rng.pick(&kinds);
     let cfgs: Vec<(usize, usize)> = chan::cfgs_for(kind, false).into_iter().filter(|(n, m)| *m <= 2 && (*n == 0 || *n <= 16)).collect();
     let (n, m) = *rng.pick(&cfgs);
@@ -64,7 +68,8 @@ pub fn draw_cfg(rng: &mut Rng, only: Option<&str>) -> Cfg {
             if prefill > 0 { prefill -= 1 } else if per_prod > 1 { per_prod -= 1 } else if nprod > 1 { nprod -= 1 } else { break }
         }
     }
-    let entries: Vec<Entry> = (0..nprod).map(|_| *rng.pick(&es)).collect();
+    let mut entries: Vec<Entry> = (0..nprod).map(|_| *rng.pick(&es)).collect();
+    if gated_only { entries[0] = Entry::SendAsyncGated }
     let predropped = if kind.is_multi() && kind != Kind::MultiMmap && streams < m && rng.chance(1, 3) { 1 + rng.below((m - streams) as u64) as usize } else { 0 };
     Cfg { kind, n, m, streams, entries, per_prod, prefill, fresh_wakers: rng.chance(1, 3), predropped }
 }
@@ -98,6 +103,7 @@ pub fn one_run(cfg: &Cfg, rc: &RunCfg, acc: &mut Acc) -> RunOut {
     }
     let rep = sched::run(rc, bodies);
     acc.account(&rep);
+    { let r: u32 = plogs.iter().map(|l| l.resumed.load(std::sync::atomic::Ordering::SeqCst)).sum(); if r > 0 { acc.count("async_sends_whose_setter_stayed_suspended_until_everybody_else_had_finished_or_parked", r as u64) } }
     if rc.trace {
         let notes = sched::NOTES.lock().unwrap().clone();
         eprintln!("--- trace ({} steps): tid@site", rep.trace.len());
@@ -236,7 +242,7 @@ pub fn run(args: &Args, acc: &mut Acc) {
 
 fn single(args: &Args, acc: &mut Acc, seed: u64, verbose: bool) {
     let mut rng = Rng::new(seed);
-    let cfg = draw_cfg(&mut rng, args.only.as_deref());
+    let cfg = draw_cfg(&mut rng, args.only.as_deref(), args.get("entry") == Some("async_gated"));
     let nthreads = cfg.streams + cfg.entries.len();
     let mut rc = match args.lane {
         Lane::Ser => RunCfg::ser(seed, draw_strategy(&mut rng, nthreads, PAUSE_SITES, 120)),
